@@ -54,7 +54,8 @@ def run(ctx: Ctx) -> None:
                         "bypasses the range check")
             if isinstance(n, ast.Call) and isinstance(n.func, ast.Attribute) and isinstance(n.func.value, ast.Attribute) \
                     and n.func.value.attr == "memory_file" and n.func.attr in ("get", "pop", "setdefault", "update", "__setitem__", "__getitem__", "clear"):
-                ok = f.cls is mem and f.name == "reset" and n.func.attr == "clear"
+                ok = (f.cls is mem and f.name == "reset" and n.func.attr == "clear") or \
+                     (f.cls is mem and f.name in ("_read_value", "_write_value") and n.func.attr in ("get", "setdefault", "__getitem__", "__setitem__"))
                 r.check(ok, f"{short(f.qname)}|memory_file.{n.func.attr}", f.loc(n), f"{short(f.qname)} uses memory_file.{n.func.attr}(..) outside the checked accessors")
     if n_sub < 2:
         ctx.floor_misses.append("R18.range: cell subscripts vanished")
@@ -84,7 +85,13 @@ def run(ctx: Ctx) -> None:
                         if isinstance(c.func, ast.Attribute) and c.func.attr == "assert_address_in_range" and [ast.unparse(z) for z in c.args] == [a]:
                             checked = True
                     for sub in ast.walk(x):
-                        if isinstance(sub, ast.Subscript) and isinstance(sub.value, ast.Attribute) and sub.value.attr == "memory_file":
+                        is_cell = isinstance(sub, ast.Subscript) and isinstance(sub.value, ast.Attribute) and sub.value.attr == "memory_file"
+                        if isinstance(sub, ast.Call) and isinstance(sub.func, ast.Attribute) and isinstance(sub.func.value, ast.Attribute) \
+                                and sub.func.value.attr == "memory_file" and sub.args:
+                            is_cell = True
+                            sub = ast.Subscript(value=sub.func.value, slice=sub.args[0], ctx=ast.Load(), lineno=sub.lineno, col_offset=sub.col_offset,
+                                                end_lineno=sub.end_lineno, end_col_offset=sub.end_col_offset)
+                        if is_cell:
                             key = f"Memory.{name}|{'overflow' if (f'{s0}.address_overflow', True) in facts else 'no-overflow'}"
                             ok = checked and not wrap_after_check and ast.unparse(sub.slice) == a
                             if (f"{s0}.address_overflow", True) in facts:
